@@ -8,7 +8,9 @@ package main
 // everything on the model, compares list assignment and stored lists, and judges each
 // answer with the verified top-k checker against the specification's candidates.
 // A real FlatIndex is driven with the same post-training history: at full probe its
-// answer to the same search travels along ("returns exactly what exact search returns").
+// answer to the same search travels along ("returns exactly what exact search returns"),
+// and every lists dump carries its stored entries and soft-delete set (the IVF lists,
+// flattened, must be the same multiset).
 
 import (
 	"fmt"
@@ -160,6 +162,26 @@ func genIVF(r *core.Rand, tier string) *ivfCase {
 	var ids []uint32
 	var removed []uint32 // ids with a remove issued after their last add: safe to re-add
 	next := uint32(1)
+	pendingDup := uint32(0) // an id added twice while live whose removal is still to be generated
+	// live re-adds end the judgement against the specification for the rest of the case, so only
+	// some cases contain them
+	dupCase := r.Chance(0.12)
+	liveIDs := func() []uint32 {
+		var out []uint32
+		for _, x := range ids {
+			rm := false
+			for _, y := range removed {
+				if y == x {
+					rm = true
+					break
+				}
+			}
+			if !rm {
+				out = append(out, x)
+			}
+		}
+		return out
+	}
 	newAdd := func() ivfCmd {
 		var v []float32
 		if r.Chance(0.35) {
@@ -178,7 +200,12 @@ func genIVF(r *core.Rand, tier string) *ivfCase {
 			}
 		}
 		id := next
-		if len(removed) > 0 && r.Chance(0.12) {
+		if live := liveIDs(); dupCase && len(live) > 0 && r.Chance(0.06) {
+			// add an id that is still live a second time (Add never looks at stored ids):
+			// two entries under one id; a Remove + Flush must then drop both
+			id = live[r.Intn(len(live))]
+			pendingDup = id
+		} else if len(removed) > 0 && r.Chance(0.12) {
 			// re-add a removed id (soft-deleted or already flushed): Add purges the tombstones first
 			j := r.Intn(len(removed))
 			id = removed[j]
@@ -235,6 +262,20 @@ func genIVF(r *core.Rand, tier string) *ivfCase {
 	}
 	nops := r.Range(1, maxOps)
 	for i := 0; i < nops; i++ {
+		if pendingDup != 0 && r.Chance(0.35) {
+			// remove the doubly stored id, then purge: explicit Flush, or implicitly by re-adding a removed id
+			noteRemove(pendingDup)
+			c.Cmds = append(c.Cmds, ivfCmd{Op: "remove", ID: pendingDup})
+			pendingDup = 0
+			switch r.Pick(5, 3, 2) {
+			case 0:
+				c.Cmds = append(c.Cmds, ivfCmd{Op: "flush"})
+			case 1:
+				c.Cmds = append(c.Cmds, newAdd(), ivfCmd{Op: "flush"})
+			case 2:
+			}
+			continue
+		}
 		switch r.Pick(8, 4, 1, 5, 2, 1) {
 		case 0:
 			if len(ids) < maxData {
@@ -310,6 +351,44 @@ func execIVF(c *ivfCase) []string {
 		return append(lines, "op panic flat constructor: "+ferr.Error(), "end")
 	}
 	trained := func() bool { t, _ := idx.VerifIVFTrained(); return t }
+	// dup mode: an id was added while still live. From then on, after every state-changing op,
+	// the IVF index is compared with the real flat index (full probe, k = 0) and the lists are dumped.
+	dupMode := false
+	var dupQ []float32
+	nCmp := 0
+	listsLine := func() string {
+		ids, vecs := idx.VerifIVFLists()
+		var b strings.Builder
+		b.WriteString("op lists =>")
+		for l := range ids {
+			b.WriteString(" /")
+			b.WriteString(ivfEntries(ids[l], vecs[l]))
+		}
+		b.WriteString(" ; " + core.IDs(idx.VerifIVFDeleted()))
+		fids, fvecs, fdel := flat.VerifFlatState()
+		b.WriteString(" ;;" + ivfEntries(fids, fvecs) + " ; " + core.IDs(fdel))
+		return b.String()
+	}
+	cmpLine := func() string {
+		agg := []string{"sum", "max", "mean"}[nCmp%3]
+		nCmp++
+		one := func(s comet.VectorSearch) string {
+			res, err := s.WithQuery(append([]float32(nil), dupQ...)).WithK(0).
+				WithScoreAggregation(comet.ScoreAggregationKind(agg)).Execute()
+			if err != nil {
+				return "err " + vecErr(err)
+			}
+			return hitsLine(res)
+		}
+		return fmt.Sprintf("op cmp %s %s => %s | %s", agg, core.VecHex(dupQ),
+			one(idx.NewSearch().WithNProbes(0)), one(flat.NewSearch()))
+	}
+	afterOp := func(lines []string) []string {
+		if !dupMode {
+			return lines
+		}
+		return append(lines, cmpLine(), listsLine())
+	}
 
 	search := func(cmd ivfCmd, q []float32, thr float32, p int, pDefault bool) string {
 		build := func(s comet.VectorSearch) comet.VectorSearch {
@@ -373,7 +452,19 @@ func execIVF(c *ivfCase) []string {
 		case "add":
 			raw := core.FromBits(cmd.Vec)
 			wasTrained := trained()
+			wasLive := false
+			if len(idx.VerifIVFListsOf(cmd.ID)) > 0 {
+				wasLive = true
+				for _, d := range idx.VerifIVFDeleted() {
+					if d == cmd.ID {
+						wasLive = false
+					}
+				}
+			}
 			err := idx.Add(*comet.NewVectorNodeWithID(cmd.ID, append([]float32(nil), raw...)))
+			if err == nil && wasLive && !dupMode {
+				dupMode, dupQ = true, append([]float32(nil), raw...)
+			}
 			out := vecErr(err)
 			if err == nil {
 				ls := idx.VerifIVFListsOf(cmd.ID)
@@ -386,25 +477,17 @@ func execIVF(c *ivfCase) []string {
 			if wasTrained {
 				flat.Add(*comet.NewVectorNodeWithID(cmd.ID, append([]float32(nil), raw...)))
 			}
-			lines = append(lines, fmt.Sprintf("op add %d %s => %s", cmd.ID, core.VecHex(raw), out))
+			lines = afterOp(append(lines, fmt.Sprintf("op add %d %s => %s", cmd.ID, core.VecHex(raw), out)))
 		case "remove":
 			err := idx.Remove(*comet.NewVectorNodeWithID(cmd.ID, nil))
 			flat.Remove(*comet.NewVectorNodeWithID(cmd.ID, nil))
-			lines = append(lines, fmt.Sprintf("op remove %d => %s", cmd.ID, vecErr(err)))
+			lines = afterOp(append(lines, fmt.Sprintf("op remove %d => %s", cmd.ID, vecErr(err))))
 		case "flush":
 			err := idx.Flush()
 			flat.Flush()
-			lines = append(lines, "op flush => "+vecErr(err))
+			lines = afterOp(append(lines, "op flush => "+vecErr(err)))
 		case "lists":
-			ids, vecs := idx.VerifIVFLists()
-			var b strings.Builder
-			b.WriteString("op lists =>")
-			for l := range ids {
-				b.WriteString(" /")
-				b.WriteString(ivfEntries(ids[l], vecs[l]))
-			}
-			b.WriteString(" ; " + core.IDs(idx.VerifIVFDeleted()))
-			lines = append(lines, b.String())
+			lines = append(lines, listsLine())
 		case "search", "sweep":
 			q := core.FromBits(cmd.Vec)
 			if cents := idx.VerifIVFCentroids(); len(cents) > 0 && cmd.VecMode != 0 && len(q) == c.Dim {
@@ -478,7 +561,7 @@ func nonTrivialIVF(lines, replies []string) bool {
 func init() {
 	register(&core.Typed[ivfCase]{
 		StreamName: "ivf", Prop: "C13",
-		RuleText: "IVF index: nlist 1..32, dims 1..32, 3 metrics, training sets of nlist..500 vectors (quick: ..160) in five styles (Gaussian, lattice, heavy duplicates with fewer distinct vectors than nlist, separated mixture, mixed with near-ties; identical centroids / empty clusters are counted as flag:ivf:dupcent=1 / emptycl=1), failing operations before training, then Add/Remove/Flush histories (distinct ids, plus re-adds of removed ids); searches for single p and sweeps over every p in {-1,0,1,…,nlist+1,default} with k in Z, thresholds incl. exactly-a-reported-distance, id restrictions, queries incl. centroids and centroid midpoints; a case is non-trivial when training succeeded AND some search with 1<=nprobes<nlist returned hits AND some full-probe search returned hits AND some non-empty answer came after a removal or with candidates excluded by probe set/filter/threshold or truncated by k; distinct = distinct request streams",
+		RuleText: "IVF index: nlist 1..32, dims 1..32, 3 metrics, training sets of nlist..500 vectors (quick: ..160) in five styles (Gaussian, lattice, heavy duplicates with fewer distinct vectors than nlist, separated mixture, mixed with near-ties; identical centroids / empty clusters are counted as flag:ivf:dupcent=1 / emptycl=1), failing operations before training, then Add/Remove/Flush histories (distinct ids, re-adds of removed ids, and in a few percent of cases an id added again while still live: from then on answers are compared with the real flat index on the same history after every op instead of the specification); searches for single p and sweeps over every p in {-1,0,1,…,nlist+1,default} with k in Z, thresholds incl. exactly-a-reported-distance, id restrictions, queries incl. centroids and centroid midpoints; a case is non-trivial when training succeeded AND some search with 1<=nprobes<nlist returned hits AND some full-probe search returned hits AND some non-empty answer came after a removal or with candidates excluded by probe set/filter/threshold or truncated by k; distinct = distinct request streams",
 		NCases: func(tier string) int {
 			if tier == "thorough" {
 				return 30000
